@@ -1,5 +1,8 @@
 (* C14 - correspondence entry point: comparison of the model's observations with the real
-   timer.Mgr's, and the property monitor evaluated on the implementation's own trace. *)
+   timer.Mgr's, and the property monitor evaluated on the implementation's own trace.
+   The model is run on the op list following the schedules of released loops recorded in the
+   implementation's observations (Model.hint_of): agreement means "the implementation's
+   behaviour is the model's behaviour under that schedule". *)
 From Cell2V Require Import Common.Tac Common.ListX Common.AList C14.Model C14.Spec.
 
 Definition cbrec_eqb (x y : cbrec) : bool :=
@@ -13,12 +16,13 @@ Definition obs_eqb (a b : obs) : bool :=
   | BUnit, BUnit => true
   | BQueued x, BQueued y => zlist_eqb x y
   | BRan x, BRan y => list_eqb cbrec_eqb x y
+  | BWait n x, BWait n' y => (n =? n') && list_eqb cbrec_eqb x y
   | _, _ => false
   end.
 
 Definition case := (list op * list obs)%type.
 
-Definition agree (c : case) : bool := list_eqb obs_eqb (run (fst c)) (snd c).
+Definition agree (c : case) : bool := list_eqb obs_eqb (run (fst c) (snd c)) (snd c).
 Definition monitor (c : case) : bool := monitor_from [] (fst c) (snd c).
 
 Definition disagreeing (cs : list case) : list Z := failing agree cs.
